@@ -45,7 +45,11 @@ def warping_paths{{ suffix }}(
     req_length = dtaidistancec_dtw.dtw_settings_wps_length(len(s1), len(s2), &settings._settings)
     req_width = dtaidistancec_dtw.dtw_settings_wps_width(len(s1), len(s2), &settings._settings)
     shape = (1, req_length)
-    if req_length == dtw_length and req_width == dtw.shape[1]:
+    # The given matrix can only double as the compact buffer if the compact layout is the
+    # identity, i.e. the sizes agree and no row is shifted (the shifted-rows part C is empty).
+    cdef dtaidistancec_dtw.DTWWps wps_parts = dtaidistancec_dtw.dtw_wps_parts(len(s1), len(s2), &settings._settings)
+    use_direct = (req_length == dtw_length and req_width == dtw.shape[1] and wps_parts.ri2 == wps_parts.ri3)
+    if use_direct:
         # No compact WPS array is required
         wps = dtw
     else:
@@ -58,7 +62,7 @@ def warping_paths{{ suffix }}(
     cdef seq_t [:, :] wps_view = wps
     cdef seq_t d
     {{ select_c_fn("wps_view")}}
-    if not (req_length == dtw_length and req_width == dtw.shape[1]):
+    if not use_direct:
         {%- if "affinity" in suffix %}
         dtaidistancec_dtw.dtw_expand_wps_affinity(&wps_view[0,0], &dtw[0, 0], len(s1), len(s2), &settings._settings)
         {%- else %}
